@@ -352,7 +352,7 @@ static int op_construct(struct wctx *c)
 static void setup_obj10(struct wctx *c)
 {
 	c->pre = json_object_new_object();
-	int n = c->arg == 1 ? 10 : 3;
+	int n = (c->arg == 1 || c->arg >= 4) ? 11 : 3; /* 11 members in 16 slots: the next insertion grows the table (load factor 0.66) */
 	for (int i = 0; i < n; i++)
 	{
 		char k[8];
@@ -364,12 +364,16 @@ static void setup_obj10(struct wctx *c)
 }
 static int op_obj_add(struct wctx *c)
 {
-	/* arg 0: new key, no growth; 1: new key with table growth (11th member); 2: replace; 3: add_ex new+constant */
+	/* arg 0: new key, no growth; 1: new key with table growth (12th member); 2: replace; 3: add_ex new+constant */
 	int rc;
 	if (c->arg == 2)
 		rc = json_object_object_add(c->pre, "k1", c->val);
-	else if (c->arg == 3)
+	else if (c->arg == 3 || c->arg == 4)
 		rc = json_object_object_add_ex(c->pre, "constant", c->val, JSON_C_OBJECT_ADD_KEY_IS_NEW | JSON_C_OBJECT_ADD_CONSTANT_KEY);
+	else if (c->arg == 5)
+		rc = json_object_object_add_ex(c->pre, "constant", c->val, JSON_C_OBJECT_ADD_CONSTANT_KEY);
+	else if (c->arg == 6)
+		rc = json_object_object_add_ex(c->pre, "new key", c->val, JSON_C_OBJECT_ADD_KEY_IS_NEW);
 	else
 		rc = json_object_object_add(c->pre, "new key", c->val);
 	if (rc != 0)
@@ -782,6 +786,9 @@ static const struct wl WL_STATIC[] = {
     W("object_add with table growth", "add", setup_obj10, op_obj_add, 1),
     W("object_add replace", "add", setup_obj10, op_obj_add, 2),
     W("object_add_ex new constant key", "add", setup_obj10, op_obj_add, 3),
+    W("object_add_ex new constant key with table growth", "add", setup_obj10, op_obj_add, 4),
+    W("object_add_ex constant key (looked up) with table growth", "add", setup_obj10, op_obj_add, 5),
+    W("object_add_ex KEY_IS_NEW with table growth", "add", setup_obj10, op_obj_add, 6),
     W("array_add with growth", "add", setup_arr32, op_arr_add, 0),
     W("array_insert_idx with growth", "add", setup_arr32, op_arr_add, 1),
     W("array_put_idx beyond end", "add", setup_arr32, op_arr_add, 2),
